@@ -229,6 +229,14 @@ impl ResumableSessions {
         self.records.retain(|r| r.fab_idx != fab_idx);
     }
 
+    /// Keep only the records for which `f` returns `true`.
+    pub fn retain<F>(&mut self, mut f: F)
+    where
+        F: FnMut(&ResumableSession) -> bool,
+    {
+        self.records.retain(|r| f(r));
+    }
+
     /// Drop the record identified by peer identity, if any.
     pub fn remove_by_peer(&mut self, fab_idx: NonZeroU8, peer_nodeid: u64) {
         self.records
